@@ -265,8 +265,8 @@ theorem C18_nocall_defined (c : List ℚ) (hc : ∀ v ∈ c, 0 ≤ v) (hpos : 0 
     (∀ af g, nocallDefinedAt c af g = true) ∧ ∀ nseq, nocallOk c nseq = true :=
   ⟨fun af g => nocallDefinedAt_true c (covA_pos c hc hpos).ne' af g, fun nseq => nocallOk_true c hc hpos nseq⟩
 
-example : covAt [0, 0, 1/2, 1/2] 0 = 0 ∧ nocallOk [0, 0, 1/2, 1/2] 6 = true ∧
-    nocall [0, 0, 1/2, 1/2] 6 0 1 = 15/16 := by decide +kernel
+example : covAt [0, 0, 1/2, 1/2] 0 = 0 ∧ covAt [0, 0, 1/2, 1/2] 1 = 0 ∧ nocallOk [0, 0, 1/2, 1/2] 6 = true :=
+  ⟨by decide +kernel, by decide +kernel, (C18_nocall_defined _ (by decide +kernel) (by decide +kernel)).2 6⟩
 
 /-- the other generated formulas are defined too: the only division of `prob_het_err` is by the mass of the depths ≥ 1,
     and every exponent in the loop of `probability_enough_individuals_covered` is non-negative -/
@@ -307,7 +307,9 @@ example : ∃ (AB : List (Axis × Axis)) (model : List ℕ → ℚ),
     (∀ i, inBox ((AB.map (·.1)).map (·.nIn)) i → model i ≠ 0 → pncND (AB.map (·.1)) i = 0) ∧ model [1, 2] ≠ 0 := by
   let a : Axis := { nIn := 3, nOut := 2, K := fun i j => if i = j then 1 else 0, pnc := fun i => if i = 0 then 1 else 0 }
   refine ⟨[(a, a), (a, a)], fun i => if i = [1, 2] then 1 else 0, ?_, ?_, by simp⟩
-  · intro ab _; exact ⟨rfl, rfl, fun _ _ _ _ => rfl⟩
+  · intro ab hab
+    have : ab = (a, a) := by simpa using hab
+    subst this; exact ⟨rfl, rfl, fun _ _ _ _ => rfl⟩
   · intro i _ hm
     have : i = [1, 2] := by by_contra hne; simp [hne] at hm
     subst this; simp [pncND, a]
@@ -404,7 +406,7 @@ theorem C18_deep_coverage_analytic (pops : List Pop) (h : ∀ p ∈ pops, PopOk 
     intro i hi hm hu
     exfalso
     have hle := pncND_le _ (deepEps_nonneg _ _) (axesOf pops) hA hpnc i hi (fun hall => hm (hcorner i hall))
-    have : ¬ (pncND (axesOf pops) i > thr) := by push_neg; linarith
+    have : ¬ (pncND (axesOf pops) i > thr) := not_lt.mpr (le_trans hle hthr)
     simp [Gen.LowPass.useSim, this] at hu)
   simpa using this
 
